@@ -32,6 +32,8 @@ def run_variant(v, known):
     finally:
         os.unlink(ov)
     out = p.stdout + p.stderr
+    if os.environ.get('AUDIT_VERBOSE'):
+        sys.stderr.write(out)
     viol = [l for l in out.splitlines() if l.strip().startswith(('violated', 'undecided'))]
     if p.returncode == 2:
         return dict(id=v['id'], outcome='error', detail=out[-600:])
